@@ -232,4 +232,44 @@ def secondComponents (g : TGraph) (n r1 c1 r2 c2 : String) : Except Err (List St
   let l ← getFirstAndSecondNeighbor g n r1 c1 r2 c2
   pure (l.map (·.2))
 
+/-! ### derived helpers with a class gate
+
+`labels, _ = self.get_node_properties(node_id=n)`; `if K1 not in labels and K2 not in labels …: raise
+PropertyGraphQueryException`; then the neighbour query with fixed relation / class constants.  The admitted classes and
+the constants are read from the source (`Generated/QueryIdioms.lean`). -/
+
+/-- `get_node_properties(node_id)[0]`: the node must exist; its labels are the one-element *list* `[Class]` -/
+def labelsOf (g : TGraph) (n : String) : Except Err (List String) :=
+  match classOf g n with
+  | some c => .ok [c]
+  | none => .error .query
+
+/-- the gate: raise unless one of the admitted classes is among the labels (list membership, whole names) -/
+def classGate (g : TGraph) (n : String) (admitted : List String) : Except Err Unit := do
+  let labels ← labelsOf g n
+  if admitted.all (fun k => !(labels.contains k)) then .error .query else .ok ()
+
+def arg (l : List String) (i : Nat) : String := l.getD i ""
+
+/-- `get_all_ns_or_link_connection_points` -/
+def linkCps (g : TGraph) (n : String) : Except Err (List String) := do
+  classGate g n QueryIdioms.linkCpsGate
+  getFirstNeighbor g n (arg QueryIdioms.linkCpsQuery 0) (arg QueryIdioms.linkCpsQuery 1)
+
+/-- `get_all_child_connection_points` -/
+def childCps (g : TGraph) (n : String) : Except Err (List String) := do
+  classGate g n QueryIdioms.childCpsGate
+  getFirstNeighbor g n (arg QueryIdioms.childCpsQuery 0) (arg QueryIdioms.childCpsQuery 1)
+
+/-- `get_all_node_or_component_connection_points` -/
+def nodeCps (g : TGraph) (n : String) : Except Err (List String) := do
+  classGate g n QueryIdioms.nodeCpsGate
+  secondComponents g n (arg QueryIdioms.nodeCpsQuery 0) (arg QueryIdioms.nodeCpsQuery 1)
+    (arg QueryIdioms.nodeCpsQuery 2) (arg QueryIdioms.nodeCpsQuery 3)
+
+/-- `find_peer_connection_points` (None is reported as the empty list); no gate -/
+def peerCps (g : TGraph) (n : String) : Except Err (List String) :=
+  secondComponents g n (arg QueryIdioms.peerQuery 0) (arg QueryIdioms.peerQuery 1)
+    (arg QueryIdioms.peerQuery 2) (arg QueryIdioms.peerQuery 3)
+
 end FimVerif.Query
